@@ -499,11 +499,51 @@ def declaration_order(ctx, R4, repo, res):
                  "a component is registered although _parse_msg_set reported unresolved references: later users merge a partial member list", loc(pc))
     ms = repo.func("FIXSchema._parse_msg_set")
     mg = CFG(ms)
-    flags = [n for n in _assigned(ms, lambda v: isinstance(v, ast.Constant) and v.value is True) if n in _assigned(ms, lambda v: isinstance(v, ast.Constant) and v.value is False)]
-    flag = flags[0] if flags else "?"
+    # the unresolved-reference mark: the local V under whose truth `return None` stands (a flag set True, or a list / set that collects
+    # the postponed elements).  Every unresolved branch (component not declared yet / nested group came back None) marks V before the
+    # loop goes on, and nothing inside the loop clears V.
     rets = [n for n in mg.nodes if n.kind == "stmt" and isinstance(n.ast, ast.Return)]
-    flag_sets = [n for n in mg.nodes if n.kind == "stmt" and isinstance(n.ast, ast.Assign) and unparse(n.ast.targets[0]) == flag and unparse(n.ast.value) == "True"]
-    ok = len(flag_sets) >= 2 and any(unparse(r.ast.value) == "None" and has(path_facts(mg, r.id), re.escape(flag)) for r in rets)
+    flag = "?"
+    for r in rets:
+        if r.ast.value is None or unparse(r.ast.value) == "None":
+            for a_, tv_ in path_facts(mg, r.id):
+                if tv_ and re.fullmatch(r"\w+", a_):
+                    flag = a_
+    def is_mark(n):
+        a_ = n.ast
+        if n.kind != "stmt":
+            return False
+        if isinstance(a_, ast.Assign) and unparse(a_.targets[0]) == flag and unparse(a_.value) == "True":
+            return True
+        if isinstance(a_, ast.Expr) and isinstance(a_.value, ast.Call) and isinstance(a_.value.func, ast.Attribute) and unparse(a_.value.func.value) == flag \
+                and a_.value.func.attr in ("append", "add") and a_.value.args:
+            return True
+        if isinstance(a_, ast.AugAssign) and unparse(a_.target) == flag and isinstance(a_.op, ast.Add) and isinstance(a_.value, ast.Constant) and a_.value.value:
+            return True
+        return False
+    flag_sets = [n for n in mg.nodes if is_mark(n)]
+    marks = {n.id for n in flag_sets}
+    loops = [n for n in mg.nodes if n.kind == "for"]
+    grp = _assigned(ms, lambda v: isinstance(v, ast.Call) and unparse(v.func).endswith("_parse_group"))
+    unresolved = []
+    for t in mg.nodes:
+        if t.kind != "test":
+            continue
+        for lab in ("true", "false"):
+            fs_ = facts(t.ast, lab == "true")
+            if has(fs_, r".+ not in self\._components") or any(has(fs_, rf"{re.escape(g_)} is None") for g_ in grp):
+                unresolved.append((t, lab))
+    marked = bool(unresolved) and bool(loops)
+    for t, lab in unresolved:
+        for d, l2 in mg.succs(t.id, False):
+            if l2 == lab and d not in marks:
+                # from the unresolved branch the loop head / the exit is reached only through a mark
+                if mg.reach([d], avoid=marks, exc=False, include_src=True) & ({x.id for x in loops} | {mg.exit} | {r.id for r in rets}):
+                    marked = False
+    cleared = [n for n in mg.nodes if n.kind == "stmt" and isinstance(n.ast, (ast.Assign, ast.AugAssign, ast.Delete)) and not is_mark(n) and loops
+               and mg.reaches(loops[0].id, n.id, exc=False) and flag in
+               [unparse(t_) for t_ in (n.ast.targets if isinstance(n.ast, (ast.Assign, ast.Delete)) else [n.ast.target])]]
+    ok = len(unresolved) >= 2 and marked and not cleared and any((r.ast.value is None or unparse(r.ast.value) == "None") and has(path_facts(mg, r.id), re.escape(flag)) for r in rets)
     ctx.instance(R4, "_parse_msg_set[unresolved reference => None]", ok,
                  "_parse_msg_set does not report an unresolved component / group reference to its caller", loc(ms))
     lookups = [n for n in mg.nodes if n.kind == "stmt" and "self._components[" in unparse(n.ast)]
@@ -544,7 +584,41 @@ def declaration_order(ctx, R4, repo, res):
     ctx.instance(R4, "_parse[no progress => error]", bool(raises) or flag_ok, "the deferred-resolution loop has no 'no progress' exit: a truly circular dictionary loops forever", loc(pf))
     prog = [c for c in set(cnts) if any(has(path_facts(pg, n.id), rf"len\({pending}\) == {c}") for n in raises)]
     upd = [n for n in pg.nodes if n.kind == "stmt" and isinstance(n.ast, ast.Assign) and prog and unparse(n.ast.targets[0]) == prog[0] and unparse(n.ast.value) == f"len({pending})"]
-    ctx.instance(R4, "_parse[progress counter updated]", len(upd) >= 2 or flag_upd,
+    # the counter compared at the 'no progress' test is the pending length at the start of the current round, on every path:
+    #   (A) no removal between the loop head and a definition made inside the round that reaches the test without passing the head
+    #   (B) no definition reaches the test across a removal and a later pass of the loop head
+    tracks = False
+    if prog and whiles and upd:
+        W = whiles[0].id
+        Dset = {n.id for n in upd}
+        Ts = [n.id for n in pg.nodes if n.kind == "test" and re.search(rf"len\({pending}\) (==|!=|<|>=) {prog[0]}|{prog[0]} (==|!=|>|<=) len\({pending}\)", unparse(n.ast))]
+        Ms = [n.id for n in removals] + [n.id for n in pg.nodes if n.kind == "stmt" and isinstance(n.ast, ast.Assign) and unparse(n.ast.targets[0]) == pending
+                                          and pg.reaches(W, n.id, exc=False)]
+        empties = {n.id for n in pg.nodes if n.kind == "test" and unparse(n.ast) == pending and n.id != W}
+
+        def reach_(src, avoid):
+            """reachability that does not leave an `if <pending>:` test through its false edge (the loop head would then be left as well)"""
+            seen, todo = set(), [src]
+            while todo:
+                x = todo.pop()
+                for d, lab in pg.succs(x, False):
+                    if d in avoid or d in seen or (x in empties and lab == "false"):
+                        continue
+                    seen.add(d)
+                    todo.append(d)
+            return seen
+        bad = False
+        for T_ in Ts:
+            for M_ in Ms:
+                if M_ in reach_(W, {W}):
+                    for D_ in Dset:
+                        if D_ in reach_(M_, {W}) and T_ in reach_(D_, {W} | Dset):
+                            bad = True  # (A)
+                for D_ in Dset:
+                    if M_ in reach_(D_, Dset) and W in reach_(M_, Dset) and T_ in reach_(W, Dset):
+                        bad = True  # (B)
+        tracks = bool(Ts) and bool(Ms) and not bad and any(T_ in reach_(D_, Dset - {D_}) for T_ in Ts for D_ in Dset)
+    ctx.instance(R4, "_parse[progress counter updated]", tracks or flag_upd,
                  "the progress bookkeeping does not follow the rounds (counter not refreshed after a round that made progress / flag not set exactly where an element is "
                  "resolved): a round is taken for 'no progress' although it resolved something, or the other way round", loc(pf))
     hdr = [n for n in pg.nodes if n.kind == "stmt" and "self._parse_header(" in unparse(n.ast)]
